@@ -52,6 +52,10 @@ P = {
  "C18": ("runtime monitor with independent optimality oracles: continued-fraction 'simplest in interval' (self-tested against brute force each run), brute-force Farey neighbours, own IEEE / digit rounding reference for 'converts back'",
          "Runtime monitoring of is_simpler_than, simplest_in (equal, swapped, negative, straddling, zero and integer endpoints, very narrow intervals), next_up/next_down/nearest against brute force over every denominator up to the limit, simplest_from_f32/f64 over powers of two, subnormals and random patterns, and simplest_from_float over 3 bases x 6 modes incl. power-of-base boundaries: the result must convert back to the same float and equal the simplest fraction of the exact rounding interval.",
          "nearest()'s sign convention follows its doc-test; ties may resolve either way.", "DESIGN.md §4 C18"),
+
+ "C08": ("runtime monitor: grammar-based sentence generator with exact written values, own reference reader for printed text, exact-rational rounding contract for base/precision changes",
+         "Runtime monitoring of float parsing (6 bases, all documented markers, hex-float, underscores, signs), printing without and with a precision option (4 bases x 6 modes; the printed text is read back by an independent positional reader and compared with the exact / correctly rounded value) and base changes (7 base pairs x 6 modes, exponents covering the exact, small-exponent and large-exponent branches) against the rounding contract and the target-precision rule.",
+         "Underscore-only / sign-in-fraction texts are outside the documented grammar (no-panic only).", "DESIGN.md §4 C08"),
 }
 NOT_YET = "monitor not built yet in this round (design in DESIGN.md §4); no claim is made until its check exists and is silent on the unchanged tree"
 
